@@ -14,7 +14,7 @@ RULE = (
     "against 'only that component changes'. Non-trivial = not a repeated value."
 )
 BUDGET = {"quick": 60000, "thorough": 2400000}
-TIME_CAP = {"quick": 60, "thorough": 1500}
+TIME_CAP = {"quick": 240, "thorough": 1500}
 ANCHORS = ["Color.parse", "Color.parse_color_lookup", "Color.parse_color_hex", "Color.parse_color_rgb", "Color.parse_color_rgbp", "Color.parse_color_hsl",
            "Color.rgb_to_int", "Color.hsl_to_int", "Color.crimp", "Color.__eq__", "Color.hue", "Color.saturation", "Color.lightness"]
 REQUIRED_MONITORS = ["keyword", "hex3", "hex4", "hex6-8", "rgb-function", "hsl-function", "hex-round-trip", "packings", "component-setters", "hsl-accessors"]
